@@ -130,9 +130,9 @@ class FetchAttribute(Parseable[bytes]):
     _attrname_pattern = re.compile(br' *([^\s\[<()]+)')
     _section_start_pattern = re.compile(br' *\[ *')
     _section_end_pattern = re.compile(br' *\]')
-    _partial_pattern = re.compile(br'< *(\d+) *\. *(\d+) *>')
+    _partial_pattern = re.compile(br'< *(\d{1,20}) *\. *(\d{1,20}) *>')
 
-    _sec_part_pattern = re.compile(br'([1-9]\d* *(?:\. *[1-9]\d*)*) *(\.)? *')
+    _sec_part_pattern = re.compile(br'([1-9]\d{0,19} *(?:\. *[1-9]\d{0,19})*) *(\.)? *')
 
     def __init__(self, attribute: bytes,
                  section: FetchAttribute.Section | None = None,
